@@ -930,6 +930,22 @@ impl MSuppPubInfo {
     }
 }
 
+impl MSuppPubInfo {
+    pub fn from_item(it: &Item) -> Option<MSuppPubInfo> {
+        let a = it.as_array()?;
+        if a.len() != 2 && a.len() != 3 {
+            return None;
+        }
+        let pb = a[1].as_bytes()?;
+        let ph = if pb.is_empty() { MHeader::default() } else { MHeader::from_item(&crate::refcbor::read_exact(pb).ok()?)? };
+        Some(MSuppPubInfo {
+            key_data_length: u64::try_from(a[0].as_int()?).ok()?,
+            protected: MProtected::built(ph),
+            other: if a.len() == 3 { Some(a[2].as_bytes()?.to_vec()) } else { None },
+        })
+    }
+}
+
 impl MKdf {
     pub fn to_item(&self) -> Item {
         let mut v = vec![
